@@ -129,13 +129,25 @@ theorem window_step (cfg : Cfg) (labeled : S → Bool) (fitFn : List S → Optio
         simpa [given] using hlen w hb
       · intro c hc; simp only at hc; injection hc with hc; exact hc.symm
 
-/-- a run in which every raising call left the object as it was (validation errors do) -/
-def CleanRun (cfg : Cfg) (labeled : S → Bool) (fitFn : List S → Option (List W) → C) :
-    St C S W → List (Op S W) → Prop
-  | _, [] => True
-  | s, (f, xs, ws) :: ops =>
-    ((call cfg labeled fitFn f s xs ws).2 = none ∨ (call cfg labeled fitFn f s xs ws).1 = s) ∧
-      CleanRun cfg labeled fitFn (call cfg labeled fitFn f s xs ws).1 ops
+/-- `call_error_atomic` — **a raising `fit` / `partial_fit` leaves the object as it was** (validation
+errors, and weights given after a call without weights) -/
+theorem call_error_atomic (cfg : Cfg) (labeled : S → Bool) (fitFn : List S → Option (List W) → C) (isFit : Bool)
+    (s : St C S W) (xs : List S) (ws : Option (List W))
+    (h : (call cfg labeled fitFn isFit s xs ws).2 ≠ none) : (call cfg labeled fitFn isFit s xs ws).1 = s := by
+  unfold call at h ⊢
+  cases hv : validate cfg xs ws with
+  | some e => rfl
+  | none =>
+    rw [hv] at h
+    simp only at h ⊢
+    cases hb : (filterBatch cfg labeled xs ws).2 with
+    | none => rw [hb] at h; simp at h
+    | some w =>
+      rw [hb] at h
+      simp only at h ⊢
+      cases hs : (if isFit = true then some [] else s.sw) with
+      | none => rfl
+      | some d => rw [hs] at h; simp at h
 
 /-- what has been given after a whole call sequence (raising calls add nothing) -/
 def givenRun (cfg : Cfg) (labeled : S → Bool) (fitFn : List S → Option (List W) → C) :
@@ -145,41 +157,37 @@ def givenRun (cfg : Cfg) (labeled : S → Bool) (fitFn : List S → Option (List
     let r := call cfg labeled fitFn f s xs ws
     givenRun cfg labeled fitFn r.1 (if r.2 = none then given cfg labeled f g xs ws else g) ops
 
-/- Full statement (false of the current code, see `window_is_last_w_counterexample`): the same without `CleanRun`. -/
-
-/-- `window_is_last_w` — **after any sequence of `fit` / `partial_fit` calls** (in which no raising
-call modified the object) the training buffer equals the last `window_size` samples given since the last
-`fit` (filtered to labeled ones if `only_labeled`), the weights — if the latest call had weights — are
-the weights of exactly those samples, **and the classifier equals a fit on exactly those**, for every
-wrapped estimator. -/
-theorem window_is_last_w_partial (cfg : Cfg) (labeled : S → Bool) (fitFn : List S → Option (List W) → C)
-    (ops : List (Op S W)) (s : St C S W) (g : Given S W)
-    (hr : Rel cfg fitFn g s) (hc : CleanRun cfg labeled fitFn s ops) :
+/-- `window_is_last_w` — **after any sequence of `fit` / `partial_fit` calls** (raising calls included)
+the training buffer equals the last `window_size` samples given since the last `fit` (filtered to labeled
+ones if `only_labeled`), the weights — if the latest call had weights — are the weights of exactly those
+samples, **and the classifier equals a fit on exactly those**, for every wrapped estimator. -/
+theorem window_is_last_w (cfg : Cfg) (labeled : S → Bool) (fitFn : List S → Option (List W) → C)
+    (ops : List (Op S W)) (s : St C S W) (g : Given S W) (hr : Rel cfg fitFn g s) :
     Rel cfg fitFn (givenRun cfg labeled fitFn s g ops) (run cfg labeled fitFn s ops) := by
   induction ops generalizing s g with
   | nil => exact hr
   | cons op ops ih =>
     obtain ⟨f, xs, ws⟩ := op
     simp only [run, givenRun]
-    obtain ⟨h1, h2⟩ := hc
-    apply ih _ _ _ h2
+    apply ih
     rcases hres : call cfg labeled fitFn f s xs ws with ⟨s', e⟩
     cases e with
     | none => simp only [if_true]; exact (window_step cfg labeled fitFn f g s s' xs ws hr hres).1
     | some e =>
-      rw [hres] at h1
-      rcases h1 with h1 | h1
-      · cases h1
-      · simp only at h1; subst h1; simpa using hr
+      have := call_error_atomic cfg labeled fitFn f s xs ws (by rw [hres]; simp)
+      rw [hres] at this
+      simp only at this
+      subst this
+      simpa using hr
 
-/-- in particular: from a fresh object, a clean run ends with `estimator_` fitted on the last
-`window_size` samples given since the last `fit` -/
+/-- in particular: from a fresh object, every run ends with `estimator_` fitted on the last `window_size`
+samples given since the last `fit` -/
 theorem window_clf_is_fit_on_last_w (cfg : Cfg) (labeled : S → Bool) (fitFn : List S → Option (List W) → C)
-    (ops : List (Op S W)) (hc : CleanRun cfg labeled fitFn (St.init : St C S W) ops) (c : C)
+    (ops : List (Op S W)) (c : C)
     (h : (run cfg labeled fitFn (St.init : St C S W) ops).clf = some c) :
     c = fitFn (lastN cfg.window (givenRun cfg labeled fitFn St.init ⟨[], some []⟩ ops).samples)
           ((givenRun cfg labeled fitFn St.init ⟨[], some []⟩ ops).weights.map (lastN cfg.window)) := by
-  obtain ⟨r1, r2, -, r4⟩ := window_is_last_w_partial cfg labeled fitFn ops St.init ⟨[], some []⟩ (rel_init cfg fitFn) hc
+  obtain ⟨r1, r2, -, r4⟩ := window_is_last_w cfg labeled fitFn ops St.init ⟨[], some []⟩ (rel_init cfg fitFn)
   rw [← r1, ← r2]
   exact r4 c h
 
@@ -189,26 +197,60 @@ theorem call_rejected_atomic (cfg : Cfg) (labeled : S → Bool) (fitFn : List S 
     call cfg labeled fitFn isFit s xs ws = (s, some e) := by
   unfold call; rw [h]
 
-/-- `window_is_last_w_counterexample` — weights given after a call without weights: `None.extend` raises
-`AttributeError` *after* `X_train_` / `y_train_` were extended; the estimator is still the old one, and the
-next `partial_fit` trains on the rejected sample as well. -/
-theorem window_is_last_w_counterexample :
-    let cfg : Cfg := ⟨some 3, false⟩
-    let fitFn : List Nat → Option (List Nat) → List Nat × Option (List Nat) := fun b w => (b, w)
-    let s1 := (call cfg (fun _ => true) fitFn false (St.init : St _ Nat Nat) [1, 2] none).1
-    let r2 := call cfg (fun _ => true) fitFn false s1 [3] (some [7])
-    let r3 := call cfg (fun _ => true) fitFn false r2.1 [4] none
-    r2.2 = some .attr ∧ r2.1.buf = [1, 2, 3] ∧ r2.1.clf = some ([1, 2], none) ∧
-      r3.2 = none ∧ r3.1.clf = some ([2, 3, 4], none) := by decide
-
 /-! ## Non-vacuity -/
 
 example :
     let cfg : Cfg := ⟨some 3, true⟩
     let fitFn : List Nat → Option (List Nat) → List Nat × Option (List Nat) := fun b w => (b, w)
     let ops : List (Op Nat Nat) := [(true, [1, 0, 2], some [5, 6, 7]), (false, [3, 4], some [8, 9]), (false, [0, 5], some [1, 2])]
-    CleanRun cfg (fun x => x != 0) fitFn St.init ops ∧
-      (run cfg (fun x => x != 0) fitFn St.init ops).clf = some ([3, 4, 5], some [8, 9, 2]) := by
-  refine ⟨⟨Or.inl (by decide), Or.inl (by decide), Or.inl (by decide), trivial⟩, by decide⟩
+    (run cfg (fun x => x != 0) fitFn St.init ops).clf = some ([3, 4, 5], some [8, 9, 2]) := by
+  decide
 
 end Ska.C13w
+
+/-! ## Regressions: statements about definitions the code no longer has -/
+
+namespace Ska.C13w.Regressions
+open Ska Ska.Window
+
+/-- `fit` / `partial_fit` as they were before the repair: with weights after a call without weights,
+`None.extend` raised `AttributeError` *after* `X_train_` / `y_train_` had been extended -/
+def callV0 {C S W : Type} (cfg : Cfg) (labeled : S → Bool) (fitFn : List S → Option (List W) → C) (isFit : Bool)
+    (s : St C S W) (xs : List S) (ws : Option (List W)) : St C S W × Option Err :=
+  match validate cfg xs ws with
+  | some e => (s, some e)
+  | none =>
+    let b := filterBatch cfg labeled xs ws
+    let buf0 := if isFit then [] else s.buf
+    let sw0 := if isFit then some [] else s.sw
+    let buf' := lastN cfg.window (buf0 ++ b.1)
+    match b.2 with
+    | some w =>
+      match sw0 with
+      | some d =>
+        let sw' := some (lastN cfg.window (d ++ w))
+        (⟨buf', sw', some (fitFn buf' sw')⟩, none)
+      | none => (⟨buf', none, s.clf⟩, some .attr)
+    | none => (⟨buf', none, some (fitFn buf' none)⟩, none)
+
+/-- old code: the estimator stayed the old one while the window held the rejected sample, and the next
+`partial_fit` trained on it as well -/
+theorem window_is_last_w_counterexample :
+    let cfg : Cfg := ⟨some 3, false⟩
+    let fitFn : List Nat → Option (List Nat) → List Nat × Option (List Nat) := fun b w => (b, w)
+    let s1 := (callV0 cfg (fun _ => true) fitFn false (St.init : St _ Nat Nat) [1, 2] none).1
+    let r2 := callV0 cfg (fun _ => true) fitFn false s1 [3] (some [7])
+    let r3 := callV0 cfg (fun _ => true) fitFn false r2.1 [4] none
+    r2.2 = some .attr ∧ r2.1.buf = [1, 2, 3] ∧ r2.1.clf = some ([1, 2], none) ∧
+      r3.2 = none ∧ r3.1.clf = some ([2, 3, 4], none) := by decide
+
+/-- the repaired code on the same input: the call is rejected (`ValueError`) and nothing changes -/
+theorem window_is_last_w_repaired :
+    let cfg : Cfg := ⟨some 3, false⟩
+    let fitFn : List Nat → Option (List Nat) → List Nat × Option (List Nat) := fun b w => (b, w)
+    let s1 := (call cfg (fun _ => true) fitFn false (St.init : St _ Nat Nat) [1, 2] none).1
+    let r2 := call cfg (fun _ => true) fitFn false s1 [3] (some [7])
+    let r3 := call cfg (fun _ => true) fitFn false r2.1 [4] none
+    r2.2 = some .value ∧ r2.1 = s1 ∧ r3.1.clf = some ([1, 2, 4], none) := by decide
+
+end Ska.C13w.Regressions
